@@ -174,6 +174,10 @@ def step (_ : Unit) (ws : List String) : Unit × String :=
     match flags.toNat?, lt.toNat?, ls.toNat?, parseSets sets, bytesOfHex hx with
     | some fl, some lt, some ls, some ss, some inp => ((), runXzMt B ((ws.getD 1 "1").toNat?.getD 1) fl lt ls ss inp)
     | _, _, _, _, _ => bad
+  | ["decmts", _, thr, flags, lt, ls, sets, _, hx] =>
+    match flags.toNat?, lt.toNat?, ls.toNat?, parseSets sets, bytesOfHex hx with
+    | some fl, some lt, some ls, some ss, some inp => ((), runXzMt B (thr.toNat?.getD 1) fl lt ls ss inp)
+    | _, _, _, _, _ => bad
   | ["decmtw", _, _, _, thr, flags, lt, ls, sets, _, hx] =>
     match flags.toNat?, lt.toNat?, ls.toNat?, parseSets sets, bytesOfHex hx with
     | some fl, some lt, some ls, some ss, some inp => ((), runXzMt B (thr.toNat?.getD 1) fl lt ls ss inp)
